@@ -117,3 +117,11 @@ def _shrink(ev, limit=20000):
     if len(s) <= limit:
         return ev
     return {"truncated": s[:limit]}
+
+
+def replay_suppressed(run, cases, trace_module, trace_cfg, key_of, step=4, trace_env=None, tag="_suppress"):
+    """a subsample of the cases loaded by a parser built with `suppress_key_warnings`: silencing the key-set diagnostics must not
+    change anything else (values, fallback sources, branches, references)"""
+    sub = [dict(c) for c in cases[::step]]
+    return replay_load(run, sub, trace_module, trace_cfg, build_features=("json", "quote", "suppress"), variant="json-quote-suppress",
+                       key_of=lambda c, r: "suppress_key_warnings;" + key_of(c, r), tag=tag, trace_env=trace_env)
